@@ -126,11 +126,9 @@ def c03_3(R):
         else:
             R.fail([j.name, "path-without", callee], "just_before_death can return without calling %s" % callee, where=j.where(), instance="death-path-marks-closed")
     # Some(err) => enqueue_error, and before mark_vsock_closed
-    err_local = None
-    for i in range(1, j.arg_count + 1):
-        if j.local_name(i) == "error":
-            err_local = i
-    R.require(err_local is not None, "parameter `error` of just_before_death")
+    # just_before_death(&mut self, cx, error: Option<&Error>)
+    err_local = 3 if j.arg_count >= 3 and "Option<" in j.local_ty(3) else None
+    R.require(err_local is not None, "third parameter (Option<&Error>) of just_before_death")
 
     def step(it, s):
         val, enq, closed_first = s
